@@ -10,6 +10,7 @@ pub mod engine_sync;
 pub mod prop_c01;
 pub mod prop_c02;
 pub mod prop_c04;
+pub mod prop_c05;
 pub mod prop_c06;
 pub mod prop_c07;
 pub mod prop_c08;
@@ -27,6 +28,7 @@ pub fn registry() -> Vec<PropertyDef> {
         prop_c01::def(),
         prop_c02::def(),
         prop_c04::def(),
+        prop_c05::def(),
         prop_c06::def(),
         prop_c07::def(),
         prop_c08::def(),
